@@ -316,6 +316,61 @@ func c19EvalExperiment(trials [][]int) [][2]string {
 			fails = append(fails, [2]string{"AvgWinnerStatistics", fmt.Sprintf("(%g,%g,%g,%g), want (%g,%g,%g,%g)", wn, wg, we, wd, sn/k, sg/k, se/k, sd/k)})
 		}
 	}
+	// trial-level accessors against the records
+	for ti, gens := range trials {
+		t := &e.Trials[ti]
+		var cf, ca, cc, dv experiment.Floats
+		var tsolved bool
+		var bestAny, bestSolver *genetics.Organism
+		var okAny, okSolver bool
+		func() {
+			defer func() {
+				if r := recover(); r != nil {
+					pan = r
+				}
+			}()
+			cf, ca, cc, dv = t.ChampionsFitness(), t.ChampionSpeciesAges(), t.ChampionsComplexities(), t.Diversity()
+			tsolved = t.Solved()
+			bestAny, okAny = t.BestOrganism(false)
+			bestSolver, okSolver = t.BestOrganism(true)
+		}()
+		if pan != nil {
+			return [][2]string{{"trial/panic", fmt.Sprintf("trial accessor panicked: %v", pan)}}
+		}
+		if len(cf) != len(gens) || len(ca) != len(gens) || len(cc) != len(gens) || len(dv) != len(gens) {
+			fails = append(fails, [2]string{"trial/length", fmt.Sprintf("trial %d: per-generation series have lengths %d/%d/%d/%d for %d generations", ti, len(cf), len(ca), len(cc), len(dv), len(gens))})
+			continue
+		}
+		anySolved := false
+		maxAny, maxSolver := math.Inf(-1), math.Inf(-1)
+		for gi, m := range gens {
+			rec := c19GenMenu[m]
+			_, cx, age := c19Champion(rec.FitIdx)
+			f := c19Fitness[rec.FitIdx]
+			if cf[gi] != f || ca[gi] != float64(age) || cc[gi] != float64(cx) || dv[gi] != float64(rec.Div) {
+				fails = append(fails, [2]string{"trial/per-generation", fmt.Sprintf("trial %d generation %d: (fitness %g, species age %g, complexity %g, diversity %g), the record gives (%g, %d, %d, %d)", ti, gi, cf[gi], ca[gi], cc[gi], dv[gi], f, age, cx, rec.Div)})
+				break
+			}
+			if f > maxAny {
+				maxAny = f
+			}
+			if rec.Solved {
+				anySolved = true
+				if f > maxSolver {
+					maxSolver = f
+				}
+			}
+		}
+		if tsolved != anySolved {
+			fails = append(fails, [2]string{"trial/Solved", fmt.Sprintf("trial %d: Solved() = %v, the records say %v", ti, tsolved, anySolved)})
+		}
+		if okAny != (len(gens) > 0) || (okAny && bestAny.Fitness != maxAny) {
+			fails = append(fails, [2]string{"trial/BestOrganism", fmt.Sprintf("trial %d: BestOrganism(false) found=%v fitness=%v, the best champion fitness is %g", ti, okAny, fitOf(bestAny), maxAny)})
+		}
+		if okSolver != anySolved || (okSolver && bestSolver.Fitness != maxSolver) {
+			fails = append(fails, [2]string{"trial/BestOrganism-solvers", fmt.Sprintf("trial %d: BestOrganism(true) found=%v fitness=%v, the best solver champion fitness is %g (solved=%v)", ti, okSolver, fitOf(bestSolver), maxSolver, anySolved)})
+		}
+	}
 	if len(fails) > 0 {
 		return fails
 	}
@@ -456,4 +511,11 @@ func replayC19(c *Ctx, rp *Replay) (bool, string) {
 		return true, f[0][1]
 	}
 	return false, fmt.Sprint(tr)
+}
+
+func fitOf(o *genetics.Organism) interface{} {
+	if o == nil {
+		return nil
+	}
+	return o.Fitness
 }
